@@ -27,6 +27,30 @@ CLAIMED = {
     "C01": ("exploration",
             "Seeded deterministic simulation of 2 real chains (testing/simapp) with scripted mock apps on v1 unordered/ordered channels, v2 clients, v2-over-alias and localhost; relayers duplicate, replay, reorder and race relay messages with real Merkle proofs at any height the run produced. Invariant after every block: receive callbacks committed per (destination id, sequence) <= 1; blocks made only of redundant receives have an empty store diff. Right level: the property quantifies over relay histories, which the simulator samples with controlled faults.",
             "deterministic simulation: seeded relay-fault schedules over real chains, callback taps + store diff oracle", "8 C01"),
+    "C02": ("exploration",
+            "Same simulator on ORDERED channels (tendermint-backed and localhost): relayers deliver later packets first, duplicate, replay and relay acks out of order. Invariant after every block: receive callbacks per ordered channel end run for sequences 1,2,3,... exactly; ack callbacks likewise. Sampled relay orders with out-of-order attempts confirmed committed (probes).",
+            "deterministic simulation: seeded reordering/duplication of relays on ordered channels, callback-sequence oracle", "8 C02"),
+    "C03": ("exploration",
+            "Ack, timeout and timeout-on-close relays duplicated, replayed and raced (ack vs timeout vs receive at one simulated instant) on v1 ordered/unordered, v2, alias and localhost routes. Invariants: per sent packet at most one terminal callback; the commitment disappears with it and never returns; blocks made only of terminal relays for finished packets have an empty store diff.",
+            "deterministic simulation: seeded races of ack/timeout relays, callback-count + commitment-history + store-diff oracle", "8 C03"),
+    "C04": ("exploration",
+            "Tight timeouts around the destination's next blocks, per-chain clock skew and jumps, early/stale/future proof heights, receive raced against timeout. Every accepted timeout is judged against the destination's REAL history kept by the simulator (state at the proof version, header time at the proof height; localhost: the executing block), every receive against the timeout at its block; nothing may be both received and timed out.",
+            "deterministic simulation: clock skew/jumps + racing relays, ground-truth oracle over the destination's recorded history", "8 C04"),
+    "C08": ("exploration",
+            "Interleaved v1 sends, v2 sends on the alias of the same channel and on plain clients (several users per block), timeouts on every guard boundary, clients expiring between sends, channels closing. Oracles: returned sequences per source id are 1,2,3,... (shared by v1 and alias); one new commitment key per successful send; accept/refuse equals the specification's guard predicate evaluated on the real pre-state.",
+            "deterministic simulation: interleaved v1/alias/v2 sends with boundary timeouts, sequential counter model + guard predicate on real pre-state", "8 C08"),
+    "C09": ("fault_enumeration",
+            "Receives whose application script writes k=0..3 entries and then succeeds / fails / goes async / panics, on every mock route kind; the store diff of the receiving transaction must contain no application write after an error ack and exactly {receipt or receive counter, ack commitment} in the IBC store, all k writes after success/async, nothing after a panic. The (script x route kind) grid is enumerated by the generator; coverage of the grid is reported, not assumed.",
+            "deterministic simulation with application-fault scripts (write-then-fail, panic, async); per-transaction store-diff oracle", "8 C09"),
+    "C10": ("fault_enumeration",
+            "IBC v2 packets with 1..3 payloads over two scripted v2 apps (clients and alias), each payload independently ok / fail / async / write-then-fail / sentinel-as-success. Oracle computes the specification outcome of the status vector (all-or-nothing writes, ack shape and order, tx failure for async-with-many or sentinel) and compares store diff, stored ack commitment and the acks handed to the sender's callbacks.",
+            "deterministic simulation with per-payload application-fault scripts; status-vector outcome model vs store diff and ack", "8 C10"),
+    "C11": ("exploration",
+            "Applications write acknowledgements asynchronously: repeatedly, prematurely, for never-received sequences, long after a synchronous ack, interleaved with relays. Invariant every block: the stored ack commitment per (destination, sequence) is absent* then one constant value; second writes refused; v2 refuses writes without receipt; v2 async-packet record exists exactly from async receive to ack write.",
+            "deterministic simulation: seeded async-ack write attempts interleaved with relays, store-history oracle", "8 C11"),
+    "C14": ("exploration",
+            "ORDERED channels with tight timeouts and several packets in flight; after a committed timeout the run keeps sending, receiving, acknowledging and timing out on that channel. Invariants: the sender's end is CLOSED right after the timeout; no later send / receive / ack on that end succeeds; other in-flight packets can still be timed out (honest drain closes the peer and uses timeout-on-close).",
+            "deterministic simulation: ordered-channel timeouts followed by seeded packet messages, state + refusal oracle", "8 C14"),
 }
 
 checks = []
